@@ -3380,6 +3380,15 @@ pub fn op_ins_family(n: usize, kind: &str, pairs: bool) -> Vec<Program> {
         bases.extend(pick(wait_family(2, 1, 1, 12, true, true, true), 2 * n));
         bases.extend(pick(chan_family(2, 2, 3, true), n));
     }
+    if kind.starts_with("LIT-") {
+        // weak-memory bases (C02 / C03: compared with RC11 directly)
+        bases.clear();
+        // without read-modify-writes: those only multiply the known findings D12/D15
+        let plain = |x: Vec<Program>| -> Vec<Program> { x.into_iter().filter(|p| !p.threads.iter().flatten().any(|o| matches!(o.k, K::Swap { .. } | K::FetchAdd { .. } | K::Cas { .. }))).collect() };
+        bases.extend(pick(plain(lit_sentinels()), 6 * n));
+        bases.extend(pick(plain(lit(2, 2, 2, 4, false, false)), 4 * n));
+    }
+    let kind = kind.trim_start_matches("LIT-");
     let mut out = vec![];
     for b in &bases {
         let mut b = b.clone();
